@@ -149,12 +149,21 @@ Section Oracle.
   Definition mirror_pollard_verify (c : ctx) (hs : list H) (ts : list N) (pf : list H) : outcome unit :=
     PollardVerify HO true (the_stump c) hs ts pf.
 
-  (** [MapPollard.verify]: translate the targets from TotalRows to minimal coordinates, then Verify *)
+  (** [MapPollard.verify]: a target beyond the minimal geometry must fit into its row of the minimal
+      geometry (row <= TreeRows, offset < 2^(TreeRows-row)); then translate and Verify *)
+  Definition target_fits (tr total t : N) : bool :=
+    if t <=? maxPosition tr then true
+    else
+      let row := DetectRow t total in
+      negb (tr <? row) && (sub64 t (startPositionAtRow row total) <? shl 1 (sub8 tr row)).
+
   Definition mirror_map_verify (c : ctx) (total : N) (hs : list H) (ts : list N) (pf : list H)
     : outcome (list nat) :=
     let tr := TreeRows (cn c) in
-    let ts' := if tr =? total then ts else translatePositions ts total tr in
-    Verify HO true (the_stump c) hs ts' pf.
+    if tr =? total then Verify HO true (the_stump c) hs ts pf
+    else if forallb (target_fits tr total) ts
+         then Verify HO true (the_stump c) hs (translatePositions ts total tr) pf
+         else Err.
 
   (** C11 / C04: Stump.Update mirrored on the reference's stump *)
   Definition mirror_update (filler : H) (c : ctx) (dels adds : list H) (ts : list N) (pf : list H) :=
